@@ -153,10 +153,11 @@ def St.deliver (s : St) (d : Dispatched) (size : Nat) : St :=
     let s := { s with countAvail := s.countAvail + 1, sizeAvail := s.sizeAvail + size }
     if d.kind = .open_ then { s with opened := (d.toConnect, d.id) :: s.opened } else s
 
-/-- `io::read_exact` of `n` bytes: the bytes, or the reason it does not complete -/
-def St.take (s : St) (n : Nat) : Except Outcome (List Nat × St) :=
+/-- `io::read_exact` of `n` bytes: the bytes, or the reason it does not complete (the bytes that were there are
+consumed all the same) -/
+def St.take (s : St) (n : Nat) : Except (Outcome × St) (List Nat × St) :=
   if s.input.length < n then
-    .error (if s.eof then .closed else .waiting)
+    .error (if s.eof then .closed else .waiting, { s with input := [], consumed := s.consumed + s.input.length })
   else .ok (s.input.take n, { s with input := s.input.drop n, consumed := s.consumed + n })
 
 /-- One step of the loop: the state after the step, and `some o` if the loop stops here with outcome `o`
@@ -165,7 +166,7 @@ def step (s : St) : St × Option Outcome :=
   match s.phase with
   | .header =>
     match s.take 2 with
-    | .error o => (s, some o)
+    | .error (o, s') => (s', some o)
     | .ok (bs, s) =>
       let h := headerOfBytes (bs.getD 0 0) (bs.getD 1 0)
       match dispatch s.nAccept s.nConnect h with
@@ -180,7 +181,7 @@ def step (s : St) : St × Option Outcome :=
           else ((({ s with countAvail := s.countAvail - 1 } : St).deliver d 0), none)
   | .dataLen d =>
     match s.take 2 with
-    | .error o => (s, some o)
+    | .error (o, s') => (s', some o)
     | .ok (bs, s) =>
       let length := headerOfBytes (bs.getD 0 0) (bs.getD 1 0)
       ({ s with phase := .chunk d length }, none)
@@ -194,7 +195,8 @@ def step (s : St) : St × Option Outcome :=
         let s1 := { s with countAvail := s.countAvail - 1, sizeAvail := s.sizeAvail - size }
         -- `bytes::Buffer::new(size)`; `read_exact(data.as_mut_capacity())`
         match s1.take size with
-        | .error o => (s, some o)
+        -- the permits of the frame being read are dropped with it
+        | .error (o, s') => ({ s with input := s'.input, consumed := s'.consumed }, some o)
         | .ok (_, s2) => ((({ s2 with phase := .chunk d (remaining - size) } : St).deliver d size), none)
 
 /-- runs at most `fuel` steps; `none` = still running after `fuel` steps -/
